@@ -92,6 +92,7 @@ def topo(calls, args):
 
 def run(ctx):
     bundled_stores_release(ctx)
+    dependency_only_predecessors(ctx)
     uberjob = core.use_repo()
     import uberjob._execution.run_physical as rp
     from uberjob import _builtins
@@ -739,3 +740,63 @@ def bundled_stores_release(ctx):
                         del plan, reg, store
     finally:
         shutil.rmtree(root, ignore_errors=True)
+
+
+def dependency_only_predecessors(ctx):
+    """A call whose result NO call consumes - other nodes merely depend on it (add_dependency), among them a dependent SOURCE that is out of
+    date - has its result released as soon as it has finished: checked from a later call of the same run, for filled / empty source store,
+    1 and 3 workers, both schedulers."""
+    import datetime as dt
+    import gc
+    import weakref
+    uberjob = core.use_repo()
+
+    class Big:
+        pass
+    for store_state in ("empty", "older than fresh_time", "up to date"):
+        for workers in (1, 3):
+            for scheduler in (None, "random"):
+                box, verdict = {}, {}
+
+                class Mem(uberjob.ValueStore):
+                    def __init__(self):
+                        self.v, self.t = (None, None) if store_state == "empty" else (5, dt.datetime(2020, 1, 1))
+
+                    def read(self):
+                        return self.v
+
+                    def write(self, v):
+                        self.v, self.t = v, dt.datetime(2021, 1, 1)
+
+                    def get_modified_time(self):
+                        return self.t
+                st = Mem()
+
+                def make():
+                    o = Big()
+                    box["wr"] = weakref.ref(o)
+                    return o
+
+                def fill():
+                    gc.collect()
+                    verdict["during"] = box["wr"]() is None
+                    st.v, st.t = 7, dt.datetime(2021, 6, 1)
+                    return 0
+                plan, reg = uberjob.Plan(), uberjob.Registry()
+                p = plan.call(make)
+                q = plan.call(fill)
+                plan.add_dependency(p, q)
+                s_ = reg.source(plan, st)
+                plan.add_dependency(p, s_)
+                plan.add_dependency(q, s_)
+                c = plan.call(lambda v: v, s_)
+                ctx.case(("c16-dependency-only-predecessors", store_state, workers, scheduler))
+                try:
+                    res = uberjob.run(plan, registry=reg, output=c, max_workers=workers, scheduler=scheduler, progress=None,
+                                      fresh_time=dt.datetime(2020, 6, 1) if store_state == "older than fresh_time" else None)
+                    oc = "returned %r" % (res,)
+                except BaseException as e:      # noqa
+                    oc = "raised %s: %r" % (type(e).__name__, getattr(e, "__cause__", None))
+                if "during" in verdict and not verdict["during"]:
+                    ctx.fail("dependency-only:retained", "a call whose result nobody consumes (a dependent source, %s, and another call merely depend on it): its result was STILL ALIVE while the "
+                             "later call ran (max_workers=%d, scheduler=%r); run %s" % (store_state, workers, scheduler, oc), {"store": store_state, "max_workers": workers, "scheduler": scheduler})
